@@ -23,7 +23,7 @@ PROPERTIES = {
               "NOT counted as discharged.",
         note="floats as exact reals; in-house algebra normaliser and loader transformations trusted (canary + numeric guard on every run); LDA "
              "correlation inside PBE correlation taken by contract (modular); generic gradient; side conditions n > 0, |zeta| < 1",
-        modules=["contracts.c02", "contracts.c02_modular"],
+        modules=["contracts.c02", "contracts.c02_modular", "contracts.c02_thermal"],
         level="proof",
         trusted_base=BASE_TRUST + ["in-house exact-algebra normaliser (engine A)", "mpmath (refutation witnesses, constant signs)"],
         assumptions=["IEEE rounding is out of scope (reals)",
@@ -378,7 +378,9 @@ CLAIM_ADDENDA = {
            "(writes-frame on the AST); finiteness at zeta = +-1 also with a non-zero gradient in the empty channel (GGAs). An identity that stays undecided within the budget is additionally "
            "evaluated natively on a fixed scan: only a failing point changes the verdict (to refuted), a pass leaves it undecided. The PBE / PBEsol correlation identities are ALSO proved modularly "
            "(engine S: chain rule over the function's own intermediate variables, symbolic beta; get_xc call-site contract; LDA part by callee contract; PBEsol wrapper contract on the AST): spin-paired in the quick tier, "
-           "spin-polarised (1-9 minutes each) in the thorough tier only.",
+           "spin-polarised (1-9 minutes each) in the thorough tier only. The finite-temperature LDAs (KSDT, corrected KSDT, GDSMFB; T > 0, both spin treatments) are proved function by function (engine S): "
+           "each of the 21 hand-written derivative helpers of lda_xc_ksdt.py against the derivative of its partner (callees by contract), then lda_xc_ksdt_spin over its own locals with the helper results opaque, "
+           "wrappers and coefficient classes on the AST, coefficients symbolic.",
     "C03": " Every engine-N obligation has a bounded native twin on real objects (triclinic cell, anisotropic sampling, two weighted k-points).",
     "C04": " The symbolic instance is also run with exactly empty states below occupied ones; bounded native twins (scale invariance of orth from 1e-9 to 1e4, badly conditioned W, tiny-norm unoccupied sets).",
     "C05": " Bounded: Hermiticity of the ionic part alone on a coarse even grid; unoccupied eigenvalues for identical fillings with different orbitals per spin; native twins with unequal k-point weights.",
